@@ -424,8 +424,8 @@ pub fn dot(a: &[f64; 3], b: &[f64; 3]) -> f64 {
 }
 
 pub fn lonlat_of(v: &[f64; 3]) -> (f64, f64) {
-  let n = (v[0] * v[0] + v[1] * v[1] + v[2] * v[2]).sqrt();
-  let lat = (v[2] / n).max(-1.0).min(1.0).asin();
+  // atan2 form: accurate near the poles (asin(z) is not)
+  let lat = v[2].atan2((v[0] * v[0] + v[1] * v[1]).sqrt());
   let mut lon = v[1].atan2(v[0]);
   if lon < 0.0 {
     lon += TWO_PI;
@@ -433,14 +433,20 @@ pub fn lonlat_of(v: &[f64; 3]) -> (f64, f64) {
   (lon, lat)
 }
 
-/// Destination point from (lon, lat) along the given bearing (from north, eastwards) at angular distance d.
+/// Destination point from (lon, lat) along the given bearing (from north, eastwards) at angular
+/// distance d.  Vector form (local north / east frame), accurate at every scale and near the poles.
 pub fn destination(lon: f64, lat: f64, bearing: f64, d: f64) -> (f64, f64) {
-  let lat2 = (lat.sin() * d.cos() + lat.cos() * d.sin() * bearing.cos()).max(-1.0).min(1.0).asin();
-  let y = bearing.sin() * d.sin() * lat.cos();
-  let x = d.cos() - lat.sin() * lat2.sin();
-  let mut lon2 = lon + y.atan2(x);
-  lon2 = lon2.rem_euclid(TWO_PI);
-  (lon2, lat2)
+  let c = unit_vec(lon, lat);
+  let north = [-lat.sin() * lon.cos(), -lat.sin() * lon.sin(), lat.cos()];
+  let east = [-lon.sin(), lon.cos(), 0.0];
+  let (sb, cb) = bearing.sin_cos();
+  let (sd, cd) = d.sin_cos();
+  let p = [
+    c[0] * cd + (north[0] * cb + east[0] * sb) * sd,
+    c[1] * cd + (north[1] * cb + east[1] * sb) * sd,
+    c[2] * cd + (north[2] * cb + east[2] * sb) * sd,
+  ];
+  lonlat_of(&p)
 }
 
 /// Witness points (sphere coordinates) of the closed cell: a k x k lattice of its diamond.
